@@ -232,13 +232,32 @@ def _worker(args):
         acc.violation(
             "watchdog: case did not return", acc.current, "termination", "timeout"
         )
-    except BaseException as e:  # machinery error inside a shard: fail loudly
+    except BaseException as e:
         signal.setitimer(signal.ITIMER_PROF, 0)
-        return ("error", f"shard {shard!r}: {type(e).__name__}: {e}\n{traceback.format_exc()}")
+        if raised_in_library(e) and not isinstance(e, (MachineryError, KeyboardInterrupt, SystemExit, MemoryError)):
+            # an exception that escaped from the library under test while a clause was being evaluated is a finding
+            # about the library, not a defect of the harness: report it against the case in hand
+            acc.violation("an exception escaped from the library while the property was being evaluated",
+                          acc.current, "no exception", f"{type(e).__name__}: {e}", signature=("escaped", type(e).__name__))
+            acc.count("shards_cut_short_by_an_escaped_exception")
+        else:  # machinery error inside a shard: fail loudly
+            return ("error", f"shard {shard!r}: {type(e).__name__}: {e}\n{traceback.format_exc()}")
     finally:
         signal.setitimer(signal.ITIMER_PROF, 0)
     acc.current = None
     return ("ok", acc)
+
+
+def raised_in_library(exc):
+    """Did the exception come out of the tree under test (a frame inside SRC below the harness's last frame)?"""
+    tb = exc.__traceback__
+    files = []
+    while tb is not None:
+        files.append(os.path.realpath(tb.tb_frame.f_code.co_filename))
+        tb = tb.tb_next
+    mine = os.path.join(VERIF_DIR, "mc") + os.sep
+    last_mine = max((i for i, f in enumerate(files) if f.startswith(mine)), default=-1)
+    return any(f.startswith(SRC + os.sep) for f in files[last_mine + 1:])
 
 
 def guard(acc, case):
@@ -359,7 +378,10 @@ class Run:
         return self.tier == "thorough"
 
     def merge(self, acc):
+        global _HAVE_VIOLATIONS
         self.acc.merge(acc)
+        if self.acc.violations:
+            _HAVE_VIOLATIONS = True
 
     # -- known findings -----------------------------------------------------
     def run_probes(self, probe_fn):
@@ -513,8 +535,13 @@ class Run:
         return 0
 
 
+_HAVE_VIOLATIONS = False
+
+
 def require(cond, what):
     """Vacuity guard: the exploration must have seen what it is meant to see."""
+    if _HAVE_VIOLATIONS:
+        return  # a layer that stopped at a violation has not seen everything: the violations are the result
     if os.environ.get("VERIF_FAILFAST") or STRIDE > 1:
         return  # partial run (mutation sweep / reduced pass under another interpreter mode): incomplete by design
     if not cond:
